@@ -37,7 +37,8 @@ COMPONENTS_REAL = [
     "Database.update_from_hdf / from_hdf", "ProblemFunction memoisation", "SciPy/NLopt optimisers", "MDF/MDAGaussSeidel/MDAJacobi(n_processes=1)",
     "h5py/HDF5 on /dev/shm", "os.fork + os._exit for cross-checks",
 ]
-COMPONENTS_STUB = ["harness disciplines (count calls, snapshot or die at call k)"]
+COMPONENTS_STUB = ["harness disciplines (count calls, snapshot or die at call k)",
+                   "thread scheduling of MDAJacobi's worker threads in the 'MDAJacobi/threads' configurations (baton-passing scheduler, schedule from the tape)"]
 ASSUMPTIONS = [
     "process death only (no power loss / fsync model); death during an export is outside the statement and not injected",
     "snapshot == death: holds because no HDF5 file object is open during a discipline call (asserted at every k) and cross-checked by real deaths",
@@ -46,6 +47,7 @@ ASSUMPTIONS = [
 MDO_ALGOS = ["SLSQP", "L-BFGS-B", "NLOPT_COBYLA", "NLOPT_SLSQP", "NELDER-MEAD"]
 UNCONSTRAINED_ONLY = {"L-BFGS-B", "NELDER-MEAD"}
 DOE_ALGOS = ["PYDOE_FULLFACT", "PYDOE_LHS", "CustomDOE"]
+MAX_KEPT = 48
 
 
 class _Counter:
@@ -180,6 +182,11 @@ def build(cfg, path, counter, load):
         kw["main_mda_settings"] = {"tolerance": 1e-14, "max_mda_iter": 60}
         if cfg["mda"] == "MDAJacobi":
             kw["main_mda_settings"]["n_processes"] = 1
+        elif cfg["mda"] == "MDAJacobi/threads":
+            # the disciplines of one MDA iteration run on worker threads: "the k-th discipline execution"
+            # then depends on the schedule, which the thread scheduler draws from the tape
+            kw["main_mda_name"] = "MDAJacobi"
+            kw["main_mda_settings"].update(n_processes=cfg["mda_workers"], use_threading=True)
     sc = create_scenario(discs, "f", ds, formulation_name=cfg["formulation"], scenario_type=cfg["kind"], **kw)
     if cfg["constrained"]:
         sc.add_constraint("g", constraint_type="ineq")
@@ -277,28 +284,59 @@ def run_with_snapshots(ctx, cfg, path, load, snap_dir, label):
     open_at = []
     rec = Recorder(problem.database)
 
+    # Every crash image is loaded and compared on the spot (the check stays exhaustive over k); a copy
+    # of the file is only KEPT for a bounded, deterministic subset of k (at most MAX_KEPT, thinned by
+    # doubling strides), from which the restarts and the real-death cross-checks are chosen.
+    images = {}  # k -> (exists, n_events, dump or exception)
+    kept = {}
+    stride = [1]
+
     def hook(k):
         n_open = open_hdf5_files()
         if n_open:
             open_at.append((k, n_open))
         p = None
-        if os.path.exists(path):
-            p = os.path.join(snap_dir, f"{label}_{k}.h5")
-            shutil.copyfile(path, p)
+        exists = os.path.exists(path)
+        content = None
+        if exists:
+            try:
+                content = load_image(path)
+            except Exception as exc:  # noqa: BLE001
+                content = exc
+            if k % stride[0] == 0:
+                p = os.path.join(snap_dir, f"{label}_{k}.h5")
+                shutil.copyfile(path, p)
+                kept[k] = p
+        images[k] = (exists, content)
         snaps[k] = (p, len(rec.events))
+        if len(kept) > MAX_KEPT:
+            stride[0] *= 2
+            for kk in [kk for kk in kept if kk % stride[0]]:
+                os.unlink(kept.pop(kk))
+                snaps[kk] = (None, snaps[kk][1])
 
     counter.hook = hook
     error = None
+    threaded = cfg["formulation"] == "MDF" and cfg["mda"] == "MDAJacobi/threads"
     with rec:
         try:
-            sc.execute(**algo_settings(cfg))
+            if threaded:
+                from ..clock import SimClock
+                from ..sched import Deadlock
+                from ..seams import thread_simulation
+
+                with thread_simulation(ctx, SimClock(), with_locks=True, step_cap=400000, log_schedule=False):
+                    sc.execute(**algo_settings(cfg))
+                ctx.probe("scenario_run_under_thread_scheduler")
+            else:
+                sc.execute(**algo_settings(cfg))
         except Exception as exc:  # noqa: BLE001
             error = exc
     res = sc.optimization_result
     return {
         "K": counter.k, "calls": counter.calls, "snaps": snaps, "events": rec.events, "marks": rec.new_entry_marks,
         "final": dump_db(problem.database), "loaded": loaded, "open_at": open_at, "error": error, "result": res,
-        "problem": problem, "stop_message": str(getattr(res, "message", "")),
+        "problem": problem, "stop_message": str(getattr(res, "message", "")), "images": images,
     }
 
 
@@ -315,7 +353,8 @@ def draw_config(t):
     kind = "MDO" if t.flag(0.7, "kind_mdo") else "DOE"
     formulation = ["DisciplinaryOpt", "MDF", "IDF"][t.weighted([3, 3, 2], "formulation")]
     cfg = {
-        "kind": kind, "formulation": formulation, "mda": t.pick(["MDAGaussSeidel", "MDAJacobi"], "mda"),
+        "kind": kind, "formulation": formulation, "mda": ["MDAGaussSeidel", "MDAJacobi", "MDAJacobi/threads"][t.weighted([3, 2, 2], "mda")],
+        "mda_workers": t.randint(2, 3, "mda_workers"),
         "nx": t.randint(1, 2, "nx"), "variant": t.choice(3, "variant"),
     }
     mode = t.weighted([3, 3, 1], "backup_mode")
@@ -404,7 +443,8 @@ def run(ctx):
                 prev = rr
     # --- real deaths -------------------------------------------------------------------------
     n_real = 0
-    if K and t.flag(0.5 if ctx.tier == "quick" else 0.8, "real_death"):
+    threaded = cfg["formulation"] == "MDF" and cfg["mda"] == "MDAJacobi/threads"
+    if K and not threaded and t.flag(0.5 if ctx.tier == "quick" else 0.8, "real_death"):
         for i in range(1 + t.choice(2, "n_real")):
             k = 1 + t.choice(K, f"real_k[{i}]")
             real_death_crosscheck(ctx, cfg, ref, k, scratch, sig_base)
@@ -419,24 +459,27 @@ def run(ctx):
 def check_images(ctx, cfg, run_, sig_base, phase):
     if run_["open_at"]:
         ctx.violate("C12.file_closed_during_discipline", sig_base, f"HDF5 file objects open during discipline calls {run_['open_at'][:5]}; cfg={cfg}")
-    first_export_seen = False
+    names_at = {}
+    for x, o in run_["loaded"]:
+        names_at.setdefault(x, set()).update(k for k, _ in o)
+    for x, outs in run_["events"]:
+        names_at.setdefault(x, set()).update(outs)
     for k in range(1, run_["K"] + 1):
-        p, j = run_["snaps"][k]
+        _, j = run_["snaps"][k]
+        exists, got = run_["images"][k]
         jj, exp = expected_image(cfg, run_, k)
-        if p is None:
+        if not exists:
             if jj and not run_["loaded"]:
                 ctx.violate("C12.prefix", f"{sig_base} {phase} missing-file", f"crash at call {k}: {jj} events should have been exported but the backup file does not exist; cfg={cfg}")
             continue
-        try:
-            got = load_image(p)
-        except Exception as exc:  # noqa: BLE001
-            ctx.violate("C12.loadable", f"{sig_base} {phase}", f"image of crash at call {k} cannot be loaded: {exc!r}; cfg={cfg}")
+        if isinstance(got, Exception):
+            ctx.violate("C12.loadable", f"{sig_base} {phase}", f"image of crash at call {k} cannot be loaded: {got!r}; cfg={cfg}")
         if got != exp:
             diff = next(((a, b) for a, b in zip(got, exp) if a != b), (len(got), len(exp)))
             ctx.violate("C12.prefix", f"{sig_base} {phase}", f"image of crash at call {k} (events before crash: {j}, exported prefix: {jj}) differs from the uninterrupted history prefix: first difference file/expected = {diff}; cfg={cfg}")
         if len(got):
             ctx.probe("nonempty_image")
-            if any(len(o) < len(run_and_names(run_, x)) for x, o in got):
+            if any(len(o) < len(names_at.get(x, ())) for x, o in got):
                 ctx.probe("image_with_partially_evaluated_point")
 
 
@@ -559,9 +602,9 @@ def real_death_crosscheck(ctx, cfg, ref, k, scratch, sig_base):
     if code != 77:
         raise RuntimeError(f"child for real death at k={k} ended with status {status} (code {code}); cfg={cfg}")
     ctx.fire("process_death_at_discipline_call(os._exit)")
-    snap = ref["snaps"][k][0]
+    exists, content = ref["images"][k]
     a = load_image(p) if os.path.exists(p) else None
-    b = load_image(snap) if snap else None
+    b = content if exists else None
     ctx.event("real_death", k, canon(a))
     if a != b:
         ctx.violate("C12.prefix", f"{sig_base} real-death", f"file left by a real process death at call {k} differs from the snapshot image: {a} vs {b}; cfg={cfg}")
